@@ -36,6 +36,8 @@ import SuironVerif.Lemmas.ParseToken
 import SuironVerif.Lemmas.ParseArgSim
 import SuironVerif.Lemmas.ParseListSim
 import SuironVerif.Lemmas.ParseArgsMulti
+import SuironVerif.Lemmas.ParseListMulti
+import SuironVerif.Lemmas.ParseListTail
 namespace Suiron.C20
 open Suiron.Parse
 
@@ -166,6 +168,33 @@ example : ∀ a ∈ ["f(a, b)".toList, "[1, 2 | $T]".toList, "\"x, y\"".toList, 
   intro a ha
   simp only [List.mem_cons, List.mem_nil_iff, or_false] at ha
   rcases ha with rfl | rfl | rfl | rfl <;> exact ⟨by decide, by decide, by decide, by decide, by rfl, by decide⟩
+
+/-- C20, A LIST OF SEVERAL ELEMENTS: `parse_linked_list` of `[T1, ..., Tn]` parses each `Ti` exactly as `parse_term Ti` alone
+    does (last element first, each linked in front of what is already built), for structured element texts with closed quotes
+    and no comma or bar of their own outside quotes and brackets -/
+theorem list_with_elements (po : POps) (f : Nat) (as : List Text) (hne : as ≠ []) (hok : ∀ a ∈ as, ElemOK a) :
+    parseLinkedList po (f + 2) ('[' :: joinArgs as ++ [']']) = parseR (parseTerm po (f + 1)) as.reverse Term.empty :=
+  parseLinkedList_multi po f as hne hok
+
+def po0' : POps := ⟨fun _ => none, fun c => ('a'.toNat ≤ c.toNat && c.toNat ≤ 'z'.toNat) || ('A'.toNat ≤ c.toNat && c.toNat ≤ 'Z'.toNat)⟩
+
+/-- C20, A LIST WITH A TAIL VARIABLE: `parse_linked_list` of `[T1, ..., Tn | V]` parses each `Ti` exactly as `parse_term Ti`
+    alone does and links them in front of the node of the tail variable `make_logic_var V` (flagged, counting 1) -/
+theorem list_with_tail (po : POps) (f : Nat) (as : List Text) (V : Text) (v : Term) (hne : as ≠ []) (hok : ∀ a ∈ as, ElemOK a)
+    (hV : ElemOK V) (hq : qCount V ⟨0, 0, false⟩ = 0) (hv : makeLogicVar po V = .ok v) :
+    parseLinkedList po (f + 2) ('[' :: (joinArgs as ++ ' ' :: '|' :: ' ' :: V) ++ [']']) =
+      parseR (parseTerm po (f + 1)) as.reverse (.cons v Term.empty 1 true) :=
+  parseLinkedList_tail po f as V v hne hok hV hq hv
+
+/-- non-vacuity: the tail variable `$Rest` -/
+example : ElemOK "$Rest".toList ∧ qCount "$Rest".toList ⟨0, 0, false⟩ = 0 ∧ makeLogicVar po0' "$Rest".toList = .ok (.var 0 "$Rest") :=
+  ⟨⟨⟨by decide, by decide, by decide, by decide, by rfl, by decide⟩, by decide⟩, by decide, by decide⟩
+
+/-- non-vacuity: three elements — a complex term, an inner list with its own bar, a quoted atom with a comma and a bar -/
+example : ∀ a ∈ ["f(a, b)".toList, "[1, 2 | $T]".toList, "\"x, y | z\"".toList], ElemOK a := by
+  intro a ha
+  simp only [List.mem_cons, List.mem_nil_iff, or_false] at ha
+  rcases ha with rfl | rfl | rfl <;> exact ⟨⟨by decide, by decide, by decide, by decide, by rfl, by decide⟩, by decide⟩
 
 /-- non-vacuity: a complex term holding a list with a quoted atom that contains a comma; a quoted atom with a comma;
     a list with a signed float and a tail variable; an atom with a blank -/
